@@ -172,7 +172,7 @@ func (p *Packer) Pack(src string, w io.Writer) (*Meta, error) {
 	}
 
 	// Walk the tree of files.
-	err = filepath.Walk(src, p.packWalkFn(src, src, src, tarW, meta, ignoreRules))
+	err = filepath.Walk(src, p.packWalkFn(src, src, src, tarW, meta, ignoreRules, []string{realPath(src)}))
 	if err != nil {
 		return nil, err
 	}
@@ -190,7 +190,9 @@ func (p *Packer) Pack(src string, w io.Writer) (*Meta, error) {
 	return meta, nil
 }
 
-func (p *Packer) packWalkFn(root, src, dst string, tarW *tar.Writer, meta *Meta, ignoreRules *ignorefiles.Ruleset) filepath.WalkFunc {
+// walking lists the real paths of the directories whose walks are in progress,
+// outermost first, so that dereferencing can detect cycles.
+func (p *Packer) packWalkFn(root, src, dst string, tarW *tar.Writer, meta *Meta, ignoreRules *ignorefiles.Ruleset, walking []string) filepath.WalkFunc {
 	return func(path string, info os.FileInfo, err error) error {
 		if err != nil {
 			return err
@@ -286,7 +288,19 @@ func (p *Packer) packWalkFn(root, src, dst string, tarW *tar.Writer, meta *Meta,
 			// If the target is a directory we can recurse into the target
 			// directory by calling the packWalkFn with updated arguments.
 			if resolved.info.IsDir() {
-				return filepath.Walk(resolved.absTarget, p.packWalkFn(root, resolved.absTarget, path, tarW, meta, ignoreRules))
+				// If the target directory contains (or is) a directory we
+				// are already walking then walking it leads back to this
+				// very link, and the recursion would never end.
+				realTarget := realPath(resolved.absTarget)
+				for _, dir := range walking {
+					if dir == realTarget || strings.HasPrefix(dir, strings.TrimSuffix(realTarget, string(filepath.Separator))+string(filepath.Separator)) {
+						return &IllegalSlugError{
+							Err: fmt.Errorf("invalid symlink (%q -> %q) forms a cycle", path, target),
+						}
+					}
+				}
+				inner := append(walking[:len(walking):len(walking)], realTarget)
+				return filepath.Walk(resolved.absTarget, p.packWalkFn(root, resolved.absTarget, path, tarW, meta, ignoreRules, inner))
 			}
 
 			// Dereference this symlink by updating the header with the target file
@@ -330,6 +344,15 @@ func (p *Packer) packWalkFn(root, src, dst string, tarW *tar.Writer, meta *Meta,
 
 		return nil
 	}
+}
+
+// realPath returns path with all symlinks resolved, or path itself (cleaned)
+// if that is not possible.
+func realPath(path string) string {
+	if real, err := filepath.EvalSymlinks(path); err == nil {
+		return real
+	}
+	return filepath.Clean(path)
 }
 
 // resolveExternalSymlink attempts to recursively follow target paths if we
